@@ -460,6 +460,87 @@ def answerNoAllocIter (msg : Bytes) : String :=
       | _ => ["P"]
     String.intercalate " " (["new", q, qs] ++ recs)
 
+/-! ### all views of one message (C08) -/
+
+def markerFields (m : Marker) : String :=
+  s!"{m.offset}:{m.typeOffset}:{m.rtype}:{m.rclass}:{m.ttl}:{m.rdlen}:{m.section_}"
+
+def typedAt (msg : Bytes) (r : Reader) (m : Marker) : String :=
+  match RType.ofCode m.rtype with
+  | some t => showE showRData (r.dataAt msg t m)
+  | none => showE (fun b => "raw:" ++ toHex b) (r.dataBytesAt msg m)
+
+def typedSeq (msg : Bytes) (r : Reader) (m : Marker) : String × Reader :=
+  match RType.ofCode m.rtype with
+  | some t => let (o, r') := r.data msg t m; (showE showRData o, r')
+  | none =>
+    if m.rtype == 41 then
+      let (o, r') := r.optRecord m
+      (showE (fun x => s!"opt:{x.udpPayloadSize}:{x.rcodeExtension}:{x.version}") o, r')
+    else
+      let (o, r') := r.dataBytes msg m
+      (showE (fun b => "raw:" ++ toHex b) o, r')
+
+/-- the record loop of a sequential view -/
+def seqRecords (msg : Bytes) (kind : Nat) : Nat → Reader → Array String → Array Marker → Array String × Array Marker
+  | 0, _, items, ms => (items, ms)
+  | fuel + 1, r, items, ms =>
+    match r.recordsCount with
+    | .ok n =>
+      if n == 0 then (items, ms) else
+      let hk : HKind := if kind == 0 then .marker else if kind == 1 then .ref else if kind == 2 then .owned .heap else .owned .inline
+      match r.recordHeader msg hk with
+      | (.ok (hn, m), r1) =>
+        let name := match hn with
+          | .none => "-"
+          | .ref c => showNameRef msg c
+          | .owned t => toHex t
+        let (data, r2) : String × Reader :=
+          if kind ≤ 1 then
+            let (o, r') := r1.skipData m
+            (showE (fun _ => "-") o, r')
+          else typedSeq msg r1 m
+        let items' := items.push s!"R:{markerFields m}:{name}:{data}"
+        if data.startsWith "E:" then (items', ms.push m) else seqRecords msg kind fuel r2 items' (ms.push m)
+      | (.err e, _) => (items.push ("!E:" ++ showErr e), ms)
+      | (.panic _, _) => (items.push "P", ms)
+      | (.ub, _) => (items.push "UB", ms)
+    | _ => (items.push "P", ms)
+
+def seqQuestions (msg : Bytes) (kind : Nat) : Nat → Reader → Array String → Option (Reader × Array String) × Array String
+  | 0, r, items => (some (r, items), items)
+  | fuel + 1, r, items =>
+    match r.questionsCount with
+    | .ok n =>
+      if n == 0 then (some (r, items), items) else
+      let (o, r1) := r.question msg (if kind ≤ 1 then .questionRef else .question)
+      match o with
+      | .ok (.ref q) =>
+        seqQuestions msg kind fuel r1 (items.push s!"Q:{if kind == 1 then showNameRef msg q.qname else "-"}:{q.qtype}:{q.qclass}")
+      | .ok (.owned q) => seqQuestions msg kind fuel r1 (items.push (showQuestionOwned q))
+      | .err e => (none, items.push ("!E:" ++ showErr e))
+      | .panic _ => (none, items.push "P")
+      | .ub => (none, items.push "UB")
+    | _ => (none, items.push "P")
+
+def seqView (msg : Bytes) (kind : Nat) : String × Array Marker :=
+  match Reader.new msg with
+  | .err e => ("!E:" ++ showErr e, #[])
+  | .panic _ => ("P", #[])
+  | .ub => ("UB", #[])
+  | .ok r0 =>
+    match r0.header msg with
+    | (.ok h, r1) =>
+      let items := #[s!"H:{h.id}:{h.flags}:{h.qd}:{h.an}:{h.ns}:{h.ar}"]
+      match seqQuestions msg kind (h.qd + 1) r1 items with
+      | (some (r2, items2), _) =>
+        let (items3, ms) := seqRecords msg kind (h.an + h.ns + h.ar + 1) r2 items2 #[]
+        (String.intercalate ";" items3.toList, ms)
+      | (none, items2) => (String.intercalate ";" items2.toList, #[])
+    | (.err e, _) => ("!E:" ++ showErr e, #[])
+    | (.panic _, _) => ("P", #[])
+    | (.ub, _) => ("UB", #[])
+
 /-! ### iterator API, record sets, NameRef::eq -/
 
 def showRecord (r : Record) : String :=
@@ -491,12 +572,27 @@ def answerRRSet (t : RType) (msg : Bytes) : String :=
 
 /-- `nameeq <p1> <p2> <hex>` -/
 def answerNameEq (p1 p2 : Nat) (msg : Bytes) : String :=
-  match nameRefEq msg msg (Cur.withPos msg p1) (Cur.withPos msg p2) with
-  | .ok (.ok b) => s!"ok {b}"
-  | .ok (.error e) => "err " ++ showErr e
-  | .err e => "err " ++ showErr e
-  | .panic k => showPanic k
-  | .ub => "ub"
+  let r := match nameRefEq msg msg (Cur.withPos msg p1) (Cur.withPos msg p2) with
+    | .ok (.ok b) => s!"ok {b}"
+    | .ok (.error e) => "err " ++ showErr e
+    | .err e => "err " ++ showErr e
+    | .panic k => showPanic k
+    | .ub => "ub"
+  s!"{r} n1={showNameRef msg (Cur.withPos msg p1)} n2={showNameRef msg (Cur.withPos msg p2)}"
+
+/-- `views <hex>` -/
+def answerViews (msg : Bytes) : String :=
+  let (m, markers) := seqView msg 0
+  let (r, _) := seqView msg 1
+  let (hh, _) := seqView msg 2
+  let (hi, _) := seqView msg 3
+  let at_ := match Reader.new msg with
+    | .ok rd => String.intercalate ";" (markers.toList.map (fun mk =>
+        s!"{typedAt msg rd mk}~{showE toHex (rd.dataBytesAt msg mk)}"))
+    | .err e => "!E:" ++ showErr e
+    | .panic _ => "P"
+    | .ub => "UB"
+  s!"M={m} | R={r} | HH={hh} | HI={hi} | AT={at_} | I={answerIter msg}"
 
 /-! ### text names, encoder -/
 
@@ -695,6 +791,10 @@ def answer (line : String) : String :=
   | ["iter", hex] =>
     match parseHex hex with
     | some msg => answerIter msg
+    | none => "bad-request"
+  | ["views", hex] =>
+    match parseHex hex with
+    | some msg => answerViews msg
     | none => "bad-request"
   | ["rrset", ty, hex] =>
     match rtypeOfString ty, parseHex hex with
